@@ -217,17 +217,50 @@ def _points_of_calls(beh, op):
     return []
 
 
+def _score(beh):
+    """how much of the history clause a generated history exercises: solves at a point after solves at another point
+    ('previous benchmark points'), solves after a rejected setup, after other solver calls, repeated solves"""
+    sc, cur, solved, since = 0, None, [], set()
+    for o in beh:
+        if o["op"] == "Setup":
+            if o["kind"] == "good":
+                cur = o["p"]
+            else:
+                since.add("rejected")
+        elif o["op"] == "Call" and cur:
+            if o["c"] == "solve":
+                sc += 3 * (len({p for p in solved if p != cur}) > 0) + 2 * ("rejected" in since) + len(since - {"rejected"}) + (cur in solved)
+                solved.append(cur)
+                since = set()
+            else:
+                since.add(o["c"])
+    return sc
+
+
+def _select(behs, n):
+    """the n highest-scoring histories, at most ceil(n/2) starting at the same point"""
+    out, per = [], {}
+    for b in sorted(behs, key=lambda b: (-_score(b), json.dumps(b, sort_keys=True))):
+        first = next((o["p"] for o in b if o["op"] == "Setup"), "?")
+        if per.get(first, 0) >= (n + 1) // 2:
+            continue
+        per[first] = per.get(first, 0) + 1
+        out.append(b)
+        if len(out) == n:
+            break
+    return out
+
+
 def run(chk, tier, seed):
     res = tlc.run_model("WallSolver.tla", "WallSolver.cfg" if tier == "quick" else "WallSolverK8.cfg", timeout=3000)
     chk.add_model(res, label="exhaustive: all pressure-sign functions on the lattice, all flag patterns, all probe strategies")
     cs = cells(tier)
     # call histories of one manager, generated by TLC from SimManager.tla (history clause of the property)
     chk.add_model(tlc.run_model("Manager.tla", "Manager.cfg", timeout=1200), label="manager life cycle: results are a function of (point, call); installed data change only by a successful setup")
-    gen = tlc.behaviours("SimManager.tla", "SimManagerQuick.cfg" if tier == "quick" else "SimManager.cfg", simulate=40 if tier == "quick" else 400, depth=16, seed=seed)
-    behs = gen["behaviours"]
-    behs = behs[:: max(1, len(behs) // (4 if tier == "quick" else 32))][: (4 if tier == "quick" else 32)]
+    gen = tlc.behaviours("SimManager.tla", "SimManagerQuick.cfg" if tier == "quick" else "SimManager.cfg", simulate=400 if tier == "quick" else 3000, depth=16, seed=seed)
+    behs = _select(gen["behaviours"], 4 if tier == "quick" else 32)
     pairs = sorted({(op["p"], "info") for b in behs for op in b if op["op"] == "Setup" and op["kind"] == "good"}
-                   | {(pt, op["c"]) for b in behs for pt in _points_of_calls(b, op)} )
+                   | {(pt, op["c"]) for b in behs for op in b for pt in _points_of_calls(b, op)})
     with Pool(16) as pool:
         a1 = pool.map_async(scenario, cs, chunksize=1)
         a2 = pool.map_async(manager.execute, behs, chunksize=1)
